@@ -89,14 +89,18 @@ Definition store_run (m : tmap) now k (cs : list val) ttl : tmap :=
   s_write (store_chunks m now k 0 cs ttl) now k (VBool true) ttl.
 
 (* the generator runs instantaneously at `now`; returns (map, what the caller observed, executed?) *)
-Definition iter_run (m : tmap) (now : Z) (k : key) (ttl : Z) (c : condk) (r : run) : tmap :=
-  let '(items, ending) := r in
-  let complete := forallb (fun x => cond_truthy c (OVal x)) items in
-  match ending with
-  | None => if complete && negb (match items with [] => true | _ => false end) then store_run m now k items ttl else m
-  | Some e => if complete && match eval_cond c (OExc e) with CRExc => true | _ => false end
-              then store_run m now k (items ++ [raise_marker e]) ttl else m
+(* what a run leaves to be stored, and whether it may be stored: every item accepted, and either it ends
+   normally with at least one item or it ends with an exception the condition selects *)
+Definition chunks_of (r : run) : list val :=
+  match snd r with None => fst r | Some e => fst r ++ [raise_marker e] end.
+Definition run_cacheable (c : condk) (r : run) : bool :=
+  forallb (fun x => cond_truthy c (OVal x)) (fst r) &&
+  match snd r with
+  | None => negb (match fst r with [] => true | _ => false end)
+  | Some e => match eval_cond c (OExc e) with CRExc => true | _ => false end
   end.
+Definition iter_run (m : tmap) (now : Z) (k : key) (ttl : Z) (c : condk) (r : run) : tmap :=
+  if run_cacheable c r then store_run m now k (chunks_of r) ttl else m.
 (* dur = virtual time the generator takes; the chunks are written when it is over, with the
    lifetime that remains of ttl (nothing is stored when none remains) *)
 Definition iter_call (fuel : nat) (m : tmap) (now : Z) (k : key) (ttl : Z) (c : condk) (r : run) (dur : Z) : tmap * run * bool :=
